@@ -13,7 +13,7 @@ LEVEL_TEXT = ("Static structural proof of necessary conditions: (R18.1) in creat
               "before any run; (R18.5) a backup becomes listed only past the two-entry test and both consistency "
               "raises. Byte identity, interruption at arbitrary I/O steps (the record write itself is not atomic) and "
               "idempotence of re-running are NOT decided.")
-LEVEL_EXTRA = 'Added after the seeded evaluation: (R18.2) the name tested by the same-name refusal is the name used by every write (no re-definition in between); (R18.4) the data tree is scanned (file list, task parsing) only after the restore. The same-name refusal also consults the file system; the task filter is not a substring test. (R18.5) a backup key is the relative path joined unchanged.'
+LEVEL_EXTRA = 'Added after the seeded evaluation: (R18.2) the name tested by the same-name refusal is the name used by every write (no re-definition in between); (R18.4) the data tree is scanned (file list, task parsing) only after the restore. The same-name refusal also consults the file system; the task filter is not a substring test. (R18.5) a backup key is the relative path joined unchanged. (R18.6) no case normalisation of path components in get_path_components / get_file_key.'
 
 COPY_NAMES = ("copy", "copy2", "copyfile", "copytree", "move")
 
@@ -330,6 +330,22 @@ def run(ctx):
                   "stays as it was" % ", ".join(sorted({call_name(x) or "?" for x in foreign})),
                   desc="key = relative path components joined unchanged")
     ctx.floor("R18.5", "key constructions in get_file_key", n_key, 1)
+
+    # ---------------- R18.6: path components keep their own spelling (restore joins them back under the data root)
+    ctx.rule("R18.6", "get_path_components / get_file_key apply no case or character normalisation to path components")
+    gpc = prog.find_function("io_util.get_path_components")
+    n_path = 0
+    for fn in (gpc, gfk):
+        ctx.saw(fn)
+        for c in walk_no_nested(fn.node):
+            if isinstance(c, ast.Call) and isinstance(c.func, ast.Attribute):
+                n_path += 1
+                ctx.check(c.func.attr not in ("lower", "upper", "casefold", "title", "capitalize", "swapcase", "normcase", "translate"),
+                          "R18.6", fn.qualname, c, loc(fn, c),
+                          "path components are case-normalised: the copy and its key are stored under `sub-a02` while the data lives under "
+                          "`sub-A02`, so restore writes a new tree and leaves the modified files as they are",
+                          desc="%s: %s keeps the spelling" % (fn.short, c.func.attr))
+    ctx.floor("R18.6", "path calls in get_path_components/get_file_key", n_path, 4)
 
 
 def _negated(test):
